@@ -87,6 +87,8 @@ def main(ctx):
             for part in range(4):
                 jobs.append({"kind": "split", "ctx": c, "part": part, "parts": 4, "tier": tier,
                              "light": tier == "quick" and ei > 0})
+            if not c["compress"]:
+                jobs.append({"kind": "interleave", "ctx": c, "tier": tier})
         ctx.pmap(env, "props.c02:job", jobs, chunksize=2)
     ctx.coverage["states"] = int(ctx.counters["verdict_classes"])
     ctx.coverage["transitions"] = int(ctx.counters["evaluations"])
@@ -94,7 +96,7 @@ def main(ctx):
     ctx.coverage["distinct_nontrivial"] = int(ctx.counters["nontrivial"])
     for n in ("sweep_execs", "seq_execs", "split_execs", "ref_fail_1002", "ref_fail_1007",
               "ref_ok", "ref_closed", "pings_answered", "msgs_delivered", "drop_observed",
-              "closeframe_observed", "queued_read_execs"):
+              "closeframe_observed", "queued_read_execs", "interleave_execs"):
         ctx.require(n)
 
 
@@ -301,6 +303,8 @@ def job(a):
         return _job_seq(a, c, env)
     if kind == "split":
         return _job_split(a, c, env)
+    if kind == "interleave":
+        return _job_interleave(a, c, env)
     raise ValueError(kind)
 
 
@@ -626,6 +630,79 @@ def _job_split(a, c, env):
         samples.append({"kind": "split", "ctx": c, "frames": list(seqs[0]),
                         "splits": len(_splits(len(b"".join(d[k] for k in seqs[0])), a["tier"]))})
     return {"evals": evals, "viol": viol, "stats": stats, "samples": samples}
+
+
+def _job_interleave(a, c, env):
+    """two connections alive in one process: the stream of connection 1 is cut at every position and a
+    complete stream for connection 2 is delivered in between.  Each connection must be judged by its
+    own octets only (no state shared between connections)."""
+    from ref import ws_receiver as R
+    from ref import ws_frames as F
+    stats = _new_stats()
+    stats["interleave_execs"] = 0
+    d = dict(frame_kinds(c))
+    A = [("text-utf8",), ("text-frag-open-split-cp", "cont-fin-close-cp"), ("text-hello",), ("bin-126",),
+         ("ping-125",), ("text-bad-utf8",), ("text-frag-open", "cont-more", "cont-fin"),
+         ("text-truncated-cp",), ("bin-frag-open", "cont-fin")]
+    B = [("text-utf8",), ("text-frag-open-split-cp",), ("bin",), ("ping-empty",), ("text-bad-utf8",),
+         ("text-empty",), ("bin-frag-open",)]
+    viol = []
+    persig = {}
+    evals = 0
+    classes = set()
+
+    def fresh():
+        ep = _endpoint(c)
+        ep.take()
+        return ep
+
+    def observe(ep):
+        ep.conn.settle()
+        out = ep.take()
+        state_before = ep.state()
+        calls = list(ep.t.calls)
+        if ep.conn.own_drop_pending():
+            ep.conn.deliver_own_drop()
+            ep.conn.settle()
+        errs, msgs, ctrls, frames = F.check_sender_stream(out, c["role"] == "client", complete=True)
+        return {"events": [e for e in ep.rec if e[0] in ("onMessage", "onPing", "onPong")],
+                "onclose": [e for e in ep.rec if e[0] == "onClose"], "state": state_before, "calls": calls,
+                "wire_errors": errs, "data_written": len(msgs),
+                "pongs": [p for (op, p, _) in ctrls if op == 10],
+                "closes": [p for (op, p, _) in ctrls if op == 8],
+                "pings_written": [p for (op, p, _) in ctrls if op == 9],
+                "escapes": [repr(e) for e in ep.conn.escapes], "order": [e[0] for e in ep.rec]}
+    for sa in A:
+        stream_a = b"".join(d[k] for k in sa)
+        va = R.judge(stream_a, _refctx(c))
+        for sb in B:
+            stream_b = b"".join(d[k] for k in sb)
+            vb = R.judge(stream_b, _refctx(c))
+            for cutpos in range(1, len(stream_a)):
+                ep1, ep2 = fresh(), fresh()
+                ep1.feed(stream_a[:cutpos])
+                ep2.feed(stream_b)
+                ep1.feed(stream_a[cutpos:])
+                o1, o2 = observe(ep1), observe(ep2)
+                evals += 1
+                stats["interleave_execs"] += 1
+                _account(stats, va, o1, classes, c, stream_a)
+                probs = [("conn1:" + cl, dt) for cl, dt in compare(c, stream_a, va, o1)] + \
+                        [("conn2:" + cl, dt) for cl, dt in compare(c, stream_b, vb, o2)]
+                for clause, detail in probs:
+                    if "split-dependent" in clause:
+                        continue
+                    sig = (clause, sa[-1], sb[-1])
+                    persig[clause] = persig.get(clause, 0) + 1
+                    if persig[clause] <= 2:
+                        viol.append(_viol(c, env, "interleaved:" + clause,
+                                          "conn1=%s cut at %d, conn2=%s in between: %s" % (
+                                              "+".join(sa), cutpos, "+".join(sb), detail),
+                                          stream_a.hex(), [stream_a[:cutpos].hex(), stream_a[cutpos:].hex()],
+                                          "interleave"))
+    stats["verdict_classes"] = len(classes)
+    return {"evals": evals, "viol": viol, "stats": stats,
+            "samples": [{"kind": "interleave", "ctx": c, "conn1": list(A[1]), "conn2": list(B[0])}]}
 
 
 def replay(a):
